@@ -1,6 +1,7 @@
 (* C09 — teardown (partial: goroutine scheduling and the Go runtime are modelled, not verified).
    Model: coq/model/Teardown.v — one association; readLoop, writeLoop, timerLoop, timer callbacks and the
-   callers blocked in Client/Server, ReadSCTP, blocking WriteSCTP, AcceptStream, Shutdown, Close, Abort are
+   callers blocked in Client/Server (which closes the association when the handshake fails), ReadSCTP,
+   blocking WriteSCTP, AcceptStream, Shutdown (nil / ErrShutdownIncomplete), Close, Abort are
    program-counter automata over channels (closed or not), sync.Once guards, a.lock and the stream condition
    variable; the step relation is the interleaving of all enabled automata steps.  A family fixes the phase
    (handshake / established / shutdown), the blocked caller and the one injection (Close call, Abort call,
@@ -31,8 +32,9 @@ Print Assumptions c09_all_terminate.
 (* what "finished" means *)
 Theorem c09_done_means : forall s, td_done s = true ->
   td_rl s = TdRlDone /\ td_wl s = TdWlDone /\ td_tl s = true /\ td_tcl s = true /\ td_lk s = false /\
-  td_cw s <> TdCwWait /\ td_rd s <> TdRdParked /\ td_rd s <> TdRdCheck /\ td_wr s <> TdWrBlocked /\
-  td_wr s <> TdWrWoken /\ td_ac s <> TdAcWait /\ td_sh s <> TdShWait /\
+  (td_cw s = TdCwNone \/ td_cw s = TdCwOk \/ td_cw s = TdCwHsErr \/ td_cw s = TdCwClosed) /\
+  td_rd s <> TdRdParked /\ td_rd s <> TdRdCheck /\ td_wr s <> TdWrBlocked /\
+  td_wr s <> TdWrWoken /\ td_ac s <> TdAcWait /\ td_sh s <> TdShWait /\ td_sh s <> TdShWoken /\
   (td_c1 s = TdCcNone \/ td_c1 s = TdCcRet) /\ (td_c2 s = TdCcNone \/ td_c2 s = TdCcRet) /\
   (td_ab s = TdAbNone \/ td_ab s = TdAbRet).
 Proof. exact td_done_spec. Qed.
@@ -98,27 +100,41 @@ Theorem c09_outcomes_complete : forall c s, In c (td_families ++ td_families_clo
 Proof. exact td_outcomes_complete. Qed.
 Print Assumptions c09_outcomes_complete.
 
-(* Refutation of (a) when the T1 timer may exhaust its retransmissions during the handshake (the faithful
-   model; reproduced on the implementation, notes/C09.md).  After T1 gave up, the connect call has returned
-   the handshake error; a late INIT-ACK/COOKIE-ACK still completes the handshake, and completeHandshake blocks
-   under a.lock because nobody receives from handshakeCompletedCh any more.  A transport failure now leaves
-   the read loop (blocked, lock held), the write loop and the timer loop for ever; an Abort() call blocks on
-   a.lock and never returns.  (A Close() call releases it: c09_t1_close_still_terminates.) *)
-Theorem c09_all_terminate_refuted_after_t1_exhaustion :
-  exists c s, In c td_families_t1 /\ td_reach c s /\ td_injected c s = true /\
-              td_steps c s = [] /\ td_done s = false /\ td_rl s = TdRlHs /\ td_cw s = TdCwHsErr.
-Proof. exact td_t1_stuck_rfail. Qed.
-Print Assumptions c09_all_terminate_refuted_after_t1_exhaustion.
+(* (f) Shutdown() returns nil only when the shutdown sequence ran to its end (shutdownCompleted was set by a
+   handled SHUTDOWN-ACK or SHUTDOWN-COMPLETE), and ErrShutdownIncomplete only when it did not: a teardown by
+   Close / Abort / transport failure / inbound ABORT that interrupts the sequence gives the error (fix 568b58f). *)
+Theorem c09_shutdown_result : forall c s, In c td_all_families -> td_reach c s ->
+  (td_sh s = TdShNil -> td_sdc s = true) /\ (td_sh s = TdShErr -> td_sdc s = false).
+Proof. exact td_shutdown_result. Qed.
+Print Assumptions c09_shutdown_result.
 
-Theorem c09_abort_never_returns_after_t1_exhaustion :
-  exists c s, In c td_families_t1 /\ td_reach c s /\ td_steps c s = [] /\ td_done s = false /\ td_ab s = TdAbFlag.
+(* T1 exhaustion during the handshake.  Before fix aeda016 the faithful model refuted (a): the connect call
+   returned the handshake error and left the association running, a late COOKIE-ACK then blocked the read loop
+   for ever in completeHandshake under a.lock (reproduced on the implementation, D27, notes/C09.md).  The
+   connect call now closes the association; with a Close() or a failing conn.Read as the injection every
+   maximal run end is finished and a finished state stays reachable. *)
+Theorem c09_t1_exhaustion_terminates : forall c s, In c td_families_t1_ok -> td_reach c s ->
+  (td_steps c s = [] -> td_done s = true) /\ (exists t, td_star c s t /\ td_done t = true).
+Proof. exact td_t1_ok. Qed.
+Print Assumptions c09_t1_exhaustion_terminates.
+
+(* What the faithful model still refutes is a race of a few instructions: the failure callback of T1 has
+   fired (rtxTimer.timeout decided under the timer's mutex) and waits for a.lock while the read loop handles
+   the COOKIE-ACK and hands the association to the connect call; the callback's completeHandshake(err) then
+   finds no receiver and no closed channel and blocks under a.lock on an established association: Abort()
+   never returns, a conn.Write failure is never noticed.  Not reproduced on the implementation (under synctest
+   a timer fires only while every goroutine is blocked). *)
+Theorem c09_t1_callback_race_abort_never_returns :
+  exists c s, In c td_families_t1 /\ td_reach c s /\ td_steps c s = [] /\ td_done s = false /\
+              td_ab s = TdAbFlag /\ td_tf s = TdTfBlocked /\ td_cw s = TdCwOk /\ td_st s = TdStEst.
 Proof. exact td_t1_stuck_abort. Qed.
-Print Assumptions c09_abort_never_returns_after_t1_exhaustion.
+Print Assumptions c09_t1_callback_race_abort_never_returns.
 
-Theorem c09_t1_close_still_terminates :
-  td_check_family (mkTdCfg TdPhHs TdInjClose TdMixNone true false) = true.
-Proof. exact td_family_t1_close_ok. Qed.
-Print Assumptions c09_t1_close_still_terminates.
+Theorem c09_t1_callback_race_write_failure_unnoticed :
+  exists c s, In c td_families_t1 /\ td_reach c s /\ td_injected c s = true /\ td_steps c s = [] /\
+              td_done s = false /\ td_tf s = TdTfBlocked /\ td_cw s = TdCwOk.
+Proof. exact td_t1_stuck_wfail. Qed.
+Print Assumptions c09_t1_callback_race_write_failure_unnoticed.
 
 (* non-vacuity: a concrete run — established, a reader blocked, Close() injected — reaches a finished state
    in which the Close() has returned and the reader got the read error *)
